@@ -64,6 +64,9 @@ theorem schema_lengths : all25.map (fun σ => (σ.name, σ.lengths)) = Generated
 /-- the type code of every schema is the class's `MESSAGE_TYPE` (regenerated) -/
 theorem schema_codes : all25.map (fun σ => (σ.name, σ.code)) = messageTypes := by decide
 
+/-- the regenerated `MESSAGE_TYPE`s are the codes of the WAMP protocol (spec table in Model/SchemaSpec.lean) -/
+theorem codes_match_protocol : messageTypes = specCodes := by decide
+
 /-- **type dispatch**: the code `marshal` writes selects, through the regenerated `Serializer.MESSAGE_TYPE_MAP`, the
 class the message came from — for all 25 classes -/
 theorem type_dispatch : ∀ σ ∈ all25, schemaOfCode σ.code = some σ := by
@@ -131,6 +134,9 @@ example : Batch.unbatchBin (Batch.batchBin [[1, 2, 3], [], [0x18]]) = .ok [[1, 2
 
 /-- the text/binary flag: `BINARY` is false exactly for the JSON object serializer (regenerated table) -/
 theorem binary_flag : ∀ e ∈ serializerBinary, e.2 = !(e.1 == cs!"json") := by decide
+
+/-- the JSON object serializer is in the table (so the statement above is not vacuous for it) -/
+theorem binary_flag_json : serializerBinary.find? (fun e => e.1 == cs!"json") = some (cs!"json", false) := by decide
 
 /-! ### concrete instances of the hypotheses (non-trivial messages that are `Valid`) -/
 
